@@ -5,6 +5,7 @@
 import MotoModel.Proofs.DiskReport
 import MotoModel.Proofs.DiskCount
 import MotoModel.Proofs.DiskEvents
+import MotoModel.Proofs.DiskUpdateText
 import MotoModel.Props.C02
 import MotoModel.Props.C01
 namespace Moto.C12
@@ -189,5 +190,65 @@ theorem one_file_events (name ext : Str) (kind flag : Nat) (data : Bytes) (img :
     ∧ (evOf name ext kind flag data).name = name ∧ (evOf name ext kind flag data).ext = ext :=
   ⟨(fileEvents_shape name ext kind flag data 4 img cur).1, (fileEvents_shape name ext kind flag data 4 img cur).2,
    evOf_facts name ext kind flag data⟩
+
+open Moto.Disk in
+/-- **C12 (create/add: the whole report, as a text)**: on a consistent image, whatever the batch,
+    the invocation returns 0 and prints exactly `updateText verbose secs` for four sections `secs`,
+    one per side in the order 0, 1, 2, 3: each section is its "Side n" heading, the lines of its items
+    (stored file with its size; refused file with the reason; note about a skipped source), and the
+    count of the files stored in it ("empty" / "n file(s)", with the blocks written in verbose mode);
+    then `---`, `TOTAL` and the sums over the sections.  The count that closes a section is the
+    number of files the written image gained on that side (`newOn`: slots that held no file before
+    and hold one now). -/
+theorem update_report_text (fl : Flavour) (w : Tape.World) (verbose : Bool) (archive : Str) (img : Image) (srcs : List Str)
+    (himg : ImgOk img) (hs : ∀ src ∈ srcs, CleanSrc src) :
+    ∃ img' secs, ImgOk img'
+      ∧ (performOn fl w verbose archive img srcs).status = .ret 0
+      ∧ (performOn fl w verbose archive img srcs).out = [updateText verbose secs]
+      ∧ (performOn fl w verbose archive img srcs).writes = [(archive, save fl img')]
+      ∧ secs.map (·.side) = [0, 1, 2, 3]
+      ∧ ∀ sec ∈ secs, (storedOf sec.items).length = newOn img img' sec.side := by
+  obtain ⟨st, secs, hst, hok, hout, hsides, hcnt⟩ := Disk.update_report_text w verbose img srcs himg hs
+  refine ⟨st.img, secs, hok, ?_, ?_, ?_, hsides, hcnt⟩
+  · unfold performOn
+    rw [if_neg (by rw [himg.1]; omega), hst]
+  · unfold performOn
+    rw [if_neg (by rw [himg.1]; omega), hst]
+    simp only [hout]
+  · unfold performOn
+    rw [if_neg (by rw [himg.1]; omega), hst]
+
+open Moto.Disk in
+/-- for `--create` the image starts empty: the count that closes the section of side `k` is the
+    number of files of side `k` of the written image -/
+theorem create_report_text (fl : Flavour) (w : Tape.World) (verbose : Bool) (archive : Str) (srcs : List Str)
+    (hs : ∀ src ∈ srcs, CleanSrc src) :
+    ∃ img' secs, ImgOk img'
+      ∧ (create fl w verbose archive srcs).out = [updateText verbose secs]
+      ∧ (create fl w verbose archive srcs).writes = [(archive, save fl img')]
+      ∧ secs.map (·.side) = [0, 1, 2, 3]
+      ∧ ∀ sec ∈ secs, (storedOf sec.items).length = ((List.range 112).countP fun j => (imgFileAt img' sec.side j).isSome) := by
+  obtain ⟨img', secs, hok, _, hout, hw, hsides, hcnt⟩ := update_report_text fl w verbose archive _ srcs fresh_img_ok hs
+  refine ⟨img', secs, hok, hout, hw, hsides, ?_⟩
+  intro sec hm
+  rw [hcnt sec hm]
+  unfold newOn
+  apply List.countP_congr
+  intro j hj
+  have hj : j < 112 := by simpa using hj
+  have hk : sec.side < 4 := by
+    have : sec.side ∈ secs.map (·.side) := List.mem_map_of_mem hm
+    rw [hsides] at this
+    simp at this; omega
+  unfold isNew
+  rw [fresh_no_file sec.side j hk hj]
+  simp
+
+/-- the text of a section, spelled out on an example: side 1 as the second section of a quiet
+    report, one stored file, one file refused, one source not found -/
+example : Disk.secText false 1
+      ⟨1, [.stored ⟨Tape.str "A", Tape.str "BAS", [], [], 3, 1⟩, .note (Tape.str "-- not found : x.bin"),
+           .refused ⟨Tape.str "BIG", Tape.str "DAT", [], [], 99999, 49⟩ (Tape.str "too big")], ⟨1, 2, 157⟩⟩
+    = Tape.str "---\nSide 1\n  A.BAS...ok\n  -- not found : x.bin\n  BIG.DAT...too big\n1 file\n" := by decide +kernel
 
 end Moto.C12
